@@ -90,3 +90,18 @@ def userspace_guard(ctx):
              % [c.name for c in cands])
     ctx.analysed_fns.add(cands[0].name)
     return cands[0], end
+
+
+def quit_dodges(disp, arms):
+    """blocks through which the Quit arm can be left without having raised Action::StopDebugger (empty = it always stops)"""
+    region = arm_region(disp, arms["Quit"])
+    stop_b = set()
+    for b in region:
+        for s in disp.stmts(b):
+            if s["k"] == "assign" and s["r"]["k"] == "agg" and s["r"].get("adt") == "lace::debugger::Action" and s["r"].get("variant") == "StopDebugger":
+                stop_b.add(b)
+    sm = disp.succ_map()
+    leaving = {b for b in region if any(x not in region for x in sm[b]) or disp.term(b)["k"] == "return"}
+    dodge = (disp.reachable(arms["Quit"], avoid=stop_b) & leaving) - stop_b
+    return dodge, stop_b
+
